@@ -614,6 +614,9 @@ class BaseWorklist(list):
         source.remove(source.wells[0, source_column], volume * n_dst, label=label)
         src_composition = source.get_well_composition(source.wells[0, source_column])
         destination.add(destination_wells, volume, label=label, compositions=[src_composition] * n_dst)
+        if destination is source:
+            # like transfer(): one history entry per operation and labware
+            source.condense_log(2, label=label)
 
         # hand over to low-level command implementation
         self.comment(label)
